@@ -119,10 +119,12 @@ MODE_CASES = []
 for _cls, _hdr, _hlen in ((M + "scsi_cdb_modesense6:ModeSelect6", "mode_parameter_header6_bits", 4),
                           (M + "scsi_cdb_modesense10:ModeSelect10", "mode_parameter_header10_bits", 8)):
     for _pname, (_code, _sub, _tab, _body) in PAGES.items():
-        def b(_hdr=_hdr, _hlen=_hlen, _code=_code, _sub=_sub, _tab=_tab, _body=_body):
+        def b(_hdr=_hdr, _hlen=_hlen, _code=_code, _sub=_sub, _tab=_tab, _body=_body, _redundant=False):
             pg = dict(leaves(MS + _tab, "pg"), ps=S("ps", 1), spf=1 if _sub is not None else 0, page_code=_code)
             if _sub is not None:
                 pg["sub_page_code"] = _sub
+            elif _redundant:
+                pg["sub_page_code"] = 0        # subpage 00h *is* the page_0 format: naming it changes nothing
             data = dict(leaves(MS + _hdr, "hdr"), mode_pages=[pg])
             ph = 2 if _sub is None else 4
             total = _hlen + ph + _body
@@ -145,6 +147,9 @@ for _cls, _hdr, _hlen in ((M + "scsi_cdb_modesense6:ModeSelect6", "mode_paramete
             img.put_table(MS + _tab, pg, base=_hlen)
             return data, img
         MODE_CASES.append({"name": "%s %s page" % (_cls.split(":")[1], _pname), "cls": _cls, "build": b})
+        if _sub is None and _pname in ("control", "disconnect-reconnect"):
+            MODE_CASES.append({"name": "%s %s page, dictionary also names sub_page_code 0" % (_cls.split(":")[1], _pname), "cls": _cls,
+                               "build": (lambda b=b: b(_redundant=True))})
 
 # ---- EXTENDED COPY -----------------------------------------------------------
 X4 = M + "scsi_cdb_extended_copy_spc4:ExtendedCopy"
